@@ -103,13 +103,15 @@ func H_c14(p []int) {
 		if rec.called != 1 {
 			continue
 		}
-		wantZero := vAnd(st.zero, vNot(st.minus))
 		vAssert(rec.verb == verb, "C14/verb-"+who)
 		vAssert(rec.plus == st.plus, "C14/plus-"+who)
 		vAssert(rec.minus == st.minus, "C14/minus-"+who)
 		vAssert(rec.sharp == st.sharp, "C14/sharp-"+who)
 		vAssert(rec.space == st.space, "C14/space-"+who)
-		vAssert(rec.zero == wantZero, "C14/zero-"+who)
+		// '0' together with '-': what Flag('0') reports changed across Go
+		// releases (the fork clears it, fmt >= 1.22 keeps it); both are
+		// accepted, the format string itself carries both flags
+		vAssert(vOr(st.minus, rec.zero == st.zero), "C14/zero-"+who)
 		vAssert(rec.widOK == st.widOK, "C14/width-present-"+who)
 		if st.widOK && rec.widOK {
 			vAssert(rec.wid == st.wid, "C14/width-"+who)
